@@ -5,10 +5,10 @@
 set -u
 dir="$1"; pid="$2"; wt="$3"; shift 3
 [ -z "$(git -C "$wt" status --short)" ] || { echo "RESULT worktree-not-clean"; exit 3; }
-( cd "$wt" && PYTHONPATH="$wt" timeout 300 /venv/bin/python "$dir/demo.py" >/dev/null 2>&1 ); c=$?
+( cd "$wt" && PIPEFUNC_TREE="$wt" PYTHONPATH="$wt" timeout 300 /venv/bin/python "$dir/demo.py" >/dev/null 2>&1 ); c=$?
 git -C "$wt" apply "$dir/patch.diff" || { echo "RESULT patch-failed"; exit 3; }
 trap 'git -C "$wt" checkout -- . ; git -C "$wt" clean -fdq' EXIT
-( cd "$wt" && PYTHONPATH="$wt" timeout 300 /venv/bin/python "$dir/demo.py" >/dev/null 2>&1 ); m=$?
+( cd "$wt" && PIPEFUNC_TREE="$wt" PYTHONPATH="$wt" timeout 300 /venv/bin/python "$dir/demo.py" >/dev/null 2>&1 ); m=$?
 echo "demo: pristine exit=$c patched exit=$m"
 if [ "${SKIP_SUITE:-0}" != "1" ]; then
 j=$(mktemp /tmp/junit-XXXXXX.xml)
